@@ -7,7 +7,7 @@
    IMPLEMENTATION's own observations: at every Lookup the driver reports the result of the ring under
    test (which has lived through the whole history) and the result of the same Lookup on a ring built
    fresh (real code, shuffled insertion order) from the members the driver believes are current. *)
-From Coq Require Import List NArith ZArith Arith Bool.
+From Coq Require Import List NArith ZArith Arith Bool FMapPositive.
 From Verif.C45 Require Import Model.
 Import ListNotations.
 Open Scope N_scope.
@@ -99,30 +99,46 @@ Definition ok_trace (ops : list (op val)) (os : list obs) : bool := ok_trace_fro
 (* --- one correspondence case, as written by the Go harness -------------------------------- *)
 Record case := {
   c_replicas : nat; c_probes : nat;
-  c_tbl : list (list N * N);          (* every (input, output) of the hash function during the run *)
+  c_tbl : list (list N * N);          (* every (input, output) of the hash function during the run ... *)
+  c_gtbl : list (key * list N);       (* ... those of the form saltedHash(key, i), i = 0,1,2,.., grouped by key (large rings) *)
   c_ops : list (op val);
   c_obs : list obs }.
 
 Definition zero_val : val := [].
 
-(* the model's observations for the same history, fresh rings built from the same member lists *)
-Fixpoint model_obs (h : list N -> N) (rp pp : nat) (r : ring val) (ops : list (op val)) (os : list obs)
-  : list obs :=
+(* the model's observations for the same history, fresh rings built from the same member lists.
+   Consecutive Lookups that come with the same member list reuse the fresh ring (and its sorted table)
+   instead of rebuilding it: `cache` holds the last member list and the fresh ring after its last Lookup. *)
+Fixpoint smap_eqb (a b : smap) : bool :=
+  match a, b with
+  | [], [] => true
+  | x :: a', y :: b' => pair_eqb x y && smap_eqb a' b'
+  | _, _ => false
+  end.
+Definition fresh_cached (h : list N -> N) (rp pp : nat) (cache : option (smap * ring val)) (fm : smap) : ring val :=
+  match cache with
+  | Some (fm', fr) => if smap_eqb fm fm' then fr else fresh h val rp pp fm
+  | None => fresh h val rp pp fm
+  end.
+Fixpoint model_obs (h : list N -> N) (rp pp : nat) (cache : option (smap * ring val)) (r : ring val)
+                   (ops : list (op val)) (os : list obs) : list obs :=
   match ops with
   | [] => []
   | o :: ops' =>
       let (r1, u) := step h val zero_val r o in
-      let b := match u with
-               | UUnit => BUnit
-               | ULen z => BLen z
-               | ULook res =>
-                   match o, os with
-                   | OLookup k, BLook _ _ fm :: _ =>
-                       BLook res (snd (lookup h val zero_val (fresh h val rp pp fm) k)) fm
-                   | _, _ => BLook res LPanic []
-                   end
-               end in
-      b :: model_obs h rp pp r1 ops' (tl os)
+      let (b, cache') :=
+        match u with
+        | UUnit => (BUnit, cache)
+        | ULen z => (BLen z, cache)
+        | ULook res =>
+            match o, os with
+            | OLookup k, BLook _ _ fm :: _ =>
+                let (fr', fres) := lookup h val zero_val (fresh_cached h rp pp cache fm) k in
+                (BLook res fres fm, Some (fm, fr'))
+            | _, _ => (BLook res LPanic [], cache)
+            end
+        end in
+      b :: model_obs h rp pp cache' r1 ops' (tl os)
   end.
 
 Definition obs_eqb (a b : obs) : bool :=
@@ -139,9 +155,25 @@ Fixpoint obs_list_eqb (a b : list obs) : bool :=
   | _, _ => false
   end.
 
+(* the recorded hash as a finite map: byte string -> 1-prefixed base-256 positive -> value *)
+Definition enc_bytes (b : list N) : positive :=
+  fold_left (fun acc x => match x with N0 => acc~0~0~0~0~0~0~0~0 | Npos p => (acc * 256 + p) end)%positive b 1%positive.
+Definition add_group (m : PositiveMap.t N) (g : key * list N) : PositiveMap.t N :=
+  snd (fold_left (fun im hv => (S (fst im),
+                                PositiveMap.add (enc_bytes (fst g ++ 0 :: le32 (N.of_nat (fst im)))) hv (snd im)))
+                 (snd g) (O, m)).
+Definition tbl_map (tbl : list (list N * N)) (gtbl : list (key * list N)) : PositiveMap.t N :=
+  fold_left add_group gtbl
+    (fold_left (fun m e => PositiveMap.add (enc_bytes (fst e)) (snd e) m) tbl (PositiveMap.empty N)).
+(* member lists in which every value is the member's own name (what proxy_neigh_mgr.go stores) *)
+Definition self_map (ks : list key) : smap := map (fun k => (k, k)) ks.
+Definition map_hash (m : PositiveMap.t N) (b : list N) : N :=
+  match PositiveMap.find (enc_bytes b) m with Some v => v | None => 0 end.
+
 Definition check_case (c : case) : bool * bool :=
-  let h := tbl_hash (c_tbl c) in
-  (obs_list_eqb (model_obs h (c_replicas c) (c_probes c) (new val (c_replicas c) (c_probes c)) (c_ops c) (c_obs c))
+  let m := tbl_map (c_tbl c) (c_gtbl c) in
+  let h := map_hash m in
+  (obs_list_eqb (model_obs h (c_replicas c) (c_probes c) None (new val (c_replicas c) (c_probes c)) (c_ops c) (c_obs c))
                 (c_obs c),
    ok_trace (c_ops c) (c_obs c)).
 
